@@ -51,6 +51,16 @@ def multiclass_obligations(repo):
         if p not in mc_params or p in by_design: continue
         v = kws.get(p)
         out.append(ob('%s#call.BinaryCarver.forwards.%s' % (F, p), v is not None and _is_self_attr(v, p), 'keyword %s=%s' % (p, ast.unparse(v) if v is not None else '<absent>')))
+    # "a BinaryCarver with the same parameters": a parameter nobody passes has the same default in both constructors
+    def defaults(fn):
+        a = fn.args; pos = a.posonlyargs + a.args; d = {}
+        for arg, val in zip(pos[len(pos) - len(a.defaults):], a.defaults): d[arg.arg] = ast.dump(val)
+        for arg, val in zip(a.kwonlyargs, a.kw_defaults):
+            if val is not None: d[arg.arg] = ast.dump(val)
+        return d
+    dm, db = defaults(mc_init), defaults(bc_init)
+    for p in sorted(set(dm) & set(db)):
+        out.append(ob('MulticlassCarver.__init__#defaults.same_as_BinaryCarver.%s' % p, dm[p] == db[p], 'default of %s: MulticlassCarver %s, BinaryCarver %s' % (p, dm[p][:60], db[p][:60])))
     star = [k.value for k in call.keywords if k.arg is None]
     out.append(ob(F + '#call.BinaryCarver.forwards.**kwargs', any(_is_self_attr(v, 'kwargs') for v in star), 'starred keywords: %r' % [ast.unparse(v) for v in star]))
     if 'copy' in kws: out.append(ob(F + '#call.BinaryCarver.copy-is-True', isinstance(kws['copy'], ast.Constant) and kws['copy'].value is True, ast.unparse(kws['copy'])))
